@@ -4,3 +4,5 @@ package main
 
 func checkParsers(w *World, r *Report)             {}
 func checkHandleConnBadFrame(w *World, r *Report) {}
+
+func checkHandleConnMarker(w *World, r *Report, rule string) {}
